@@ -49,7 +49,7 @@ func runBad(c *Ctx, prop string) {
 		badRun(c, prop, wrap.Case)
 		return
 	}
-	files, _ := filepathGlob("/verif/harness/corpus/" + prop + "/*.json")
+	files, _ := filepathGlob(verifRoot + "/harness/corpus/" + prop + "/*.json")
 	for _, f := range files {
 		var wrap struct{ Case badCase `json:"case"` }
 		b, err := osReadFile(f)
